@@ -192,6 +192,14 @@ PROPS = {
                "that the report's timestamp was taken before `group` started reading (caller history) is NOT covered"],
         design_ref="DESIGN.md §5 C04",
     ),
+    "C09": dict(
+        kani=[],
+        verus=["walk_decisions"],
+        prefixes=["C09."],
+        category="proof",
+        trust=["A1 verifiers", "the walk itself (threads, file system) is NOT covered: only the depth guard, the nesting levels and the link decisions"],
+        design_ref="DESIGN.md §5 C09",
+    ),
     "C08": dict(
         kani=["c08_subgroup_keep_drop_bounded", "c08_priority_least_nested_bounded", "c08_priority_most_nested_bounded",
               "c08_priority_top_bottom_bounded", "c08_path_should_keep_bounded", "c08_path_may_drop_bounded"],
@@ -288,6 +296,7 @@ REAL_REPLAY = [
     ("c20_lock_first_reflink", "C20.lock_first.", "lock", "reflink"),
     ("c20_lock_first_move", "C20.lock_first.", "lock", "move"),
     ("c20_file_lock_new", "C20.file_lock.", "lock_shared", "remove"),
+    ("walk_decisions", "C09.depth.", "depth", None),
     ("c05_safe_remove", "C0", "faults", ("hardlink", False)),
     ("c05_execute_remove", "C0", "faults", ("remove", False)),
     ("c05_execute_hardlink", "C0", "faults", ("hardlink", False)),
